@@ -17,8 +17,10 @@ EXPLANATION = (
     "per popped register, so that the entry function's slot and the argument's slot are where the template loads them from "
     "and the entry function starts with rsp = 8 (mod 16).  Stack allocation precedes the layout stores and is paired with "
     "the matching release, reached only through fiber_context_destroy for non-thread contexts, itself called only by "
-    "fiber_destroy (thorough tier: also the malloc and mmap strategies and the ucontext back-end).  Not decided: the i386 "
-    "template (cannot be parsed here), MXCSR/x87 control words, libc's swapcontext and libgcc's split-stack runtime.")
+    "fiber_destroy (thorough tier: also the malloc and mmap strategies and the ucontext back-end); a tiny request still allocates room for the "
+    "initial frame.  The template is also required to save and restore the MXCSR control bits and the x87 control word (SysV callee-saved): it does "
+    "not -- known finding F1, reported on every run.  Not decided: the i386 "
+    "template (cannot be parsed here), libc's swapcontext and libgcc's split-stack runtime.")
 NOT_DECIDED = ["the i386 template (no 32-bit headers in this sandbox)", "MXCSR / x87 control words (not in the property's register list)",
                "correctness of libc swapcontext and of libgcc's split-stack runtime (trusted)"]
 ASSUMPTIONS = ["SysV x86-64 ABI: callee-saved GPRs are rbx, rbp, r12-r15 (+ rsp)"]
